@@ -57,6 +57,7 @@ def run(ctx, rep):
                 cases.append((version, plan, rand_state(rng), rng.choice(ids)))
         for _ in range(ctx.n(4, 40)):
             cases.append((version, {"extra": "none", "seg": "whole", "gap_ms": 0, "idle_push": rand_state(rng)}, rand_state(rng), 123456))
+            cases.append((version, {"extra": "none", "seg": "whole", "gap_ms": 0, "idle_push": rand_state(rng), "drop": 1}, rand_state(rng), 123456))
         base = {"extra": "none", "seg": "whole", "gap_ms": 0}
         for tgt in (26, 27, 32, 33, 61, 62, 63, 86, 87):
             s = rand_state(rng); s["target"] = tgt
@@ -105,7 +106,8 @@ def run(ctx, rep):
                 break
         ip = obs.get("idle_push")
         if ip and ip["read"] != ip["expected"]:
-            stale = ip["read"] in obs["earlier_views"] and not ip["got_current_report"]
+            # K3 needs an unsolicited report to have been delivered; when the appliance merely closed the idle connection none was
+            stale = not plan.get("drop") and ip["read"] in obs["earlier_views"] and not ip["got_current_report"]
             rep.fail("oracle", k2 or ("stale-report-taken-as-reply" if stale else "refresh-differs-from-device"), inp,
                      {"phase": "unsolicited report while idle, state changed by another client, refresh", "read": ip["read"],
                       "reference_reading_of_device_state": ip["expected"], "exchange_returned_a_current_report": ip["got_current_report"],
